@@ -92,7 +92,8 @@ def odsRow (row : Xml) : Option (Option (List (Option Str))) :=
               match cells rest with
               | some (some more) => some (some (List.replicate n.toNat (some value) ++ more))
               | other => other
-  cells (row.childrenTagged "table:table-cell")
+  -- cells hidden by a merged cell (`table:covered-table-cell`) still take up a column
+  cells (row.children.filter (fun c => c.tag == "table:table-cell" || c.tag == "table:covered-table-cell"))
 
 def odsRowsOf : List Xml → Option (Option (List (List (Option Str))))
   | [] => some (some [])
